@@ -11,6 +11,10 @@
   reproduces each failure (theorems `current_*`, by concrete histories), the full statement is kept
   as `AnswersHistoryFree`, `current_partial*` say for which histories it does hold, and the full
   statement is proved for `stepFixed`, the model with the four minimal repairs.
+
+  `List Op` includes `remove k` (ShapeIndex.Remove, work package c13remove): the theorems for ALL finite histories
+  below cover removals; what they say about removals, the answers-by-identity theorem and the regression witnesses
+  D52 / D53 are in `Properties/C13_Remove.lean`.
 -/
 import S2Proofs.History.State
 namespace S2Proofs.C13
@@ -95,58 +99,75 @@ example : SOK true (State.init Fixes.all 64 false .full 8) := sok_init _ _ _ _ _
 
 /-! ### The current tree: what does hold (`_partial`) -/
 
+/-- nothing has been removed from the index since its last Reset -/
+def NoRem (x : Index) : Prop := x.gone = [] ∧ x.pendingRemovals = []
+
 /-- an operation that does not touch the defect triggers: an `add`, or a build / index query while the
-    index is fresh or still before its first update -/
+    index is fresh or still before its first update and nothing has been removed -/
 def Quiet (s : State) (op : Op) : Prop :=
   match op with
   | .add _ => True
-  | .build | .query => s.idx.status = .fresh ∨ s.idx.pendingAdditionsPos = 0
+  | .build | .query => (s.idx.status = .fresh ∨ s.idx.pendingAdditionsPos = 0) ∧ NoRem s.idx
   | _ => False
 
 theorem step_agree_of_quiet (s : State) (op : Op) (hq : Quiet s op) :
     stepV Fixes.none s op = stepV Fixes.all s op := by
   cases op <;> simp only [Quiet] at hq
   · simp [stepV]
-  · simp only [stepV]; rw [mau_agree Fixes.none Fixes.all s.idx hq]
-  · simp only [stepV]; rw [mau_agree Fixes.none Fixes.all s.idx hq]
+  · simp only [stepV]; rw [mau_agree Fixes.none Fixes.all s.idx hq.1 (Or.inr hq.2) (Or.inr hq.2)]
+  · simp only [stepV]; rw [mau_agree Fixes.none Fixes.all s.idx hq.1 (Or.inr hq.2) (Or.inr hq.2)]
+    cases s.dead with
+    | some o => rfl
+    | none =>
+      cases hm : maybeApplyUpdates Fixes.all s.idx with
+      | none => rfl
+      | some i => simp [mau_gone hm, hq.2.1]
 
 theorem init_agree (n : Nat) (o : Bool) (k : PolyKind) (m : Nat) (hk : k ≠ .full) :
     State.init Fixes.none n o k m = State.init Fixes.all n o k m := by
   cases k <;> simp_all [State.init, PolyS.new, polyIndex]
 
 /-- phase 1: any number of `Add`s on an index that has never been updated -/
-theorem run_adds (s : State) (hs : SOK true s) (hp : s.idx.pendingAdditionsPos = 0) (shapes : List Shape) :
+theorem run_adds (s : State) (hs : SOK true s) (hp : s.idx.pendingAdditionsPos = 0) (hn : NoRem s.idx)
+    (shapes : List Shape) :
     runV Fixes.none s (shapes.map .add) = runV Fixes.all s (shapes.map .add) ∧
-    (runV Fixes.all s (shapes.map .add)).1.idx.pendingAdditionsPos = 0 := by
+    (runV Fixes.all s (shapes.map .add)).1.idx.pendingAdditionsPos = 0 ∧
+    NoRem (runV Fixes.all s (shapes.map .add)).1.idx := by
   induction shapes generalizing s with
-  | nil => exact ⟨rfl, hp⟩
+  | nil => exact ⟨rfl, hp, hn⟩
   | cons sh t ih =>
     have hstep := step_agree_of_quiet s (.add sh) trivial
     have hs' := (step_fixed s (.add sh) hs).1
     have hp' : (stepV Fixes.all s (.add sh)).1.idx.pendingAdditionsPos = 0 := by
       simp [stepV, hs.alive, Index.add, hp]
-    obtain ⟨i1, i2⟩ := ih _ hs' hp'
+    have hn' : NoRem (stepV Fixes.all s (.add sh)).1.idx := by
+      simp only [stepV, hs.alive, Index.add]; exact hn
+    obtain ⟨i1, i2⟩ := ih _ hs' hp' hn'
     simp only [List.map_cons, runV]
     rw [hstep, i1]
     exact ⟨rfl, i2⟩
 
 /-- phase 2: any number of builds / index queries once no further shape is added -/
 theorem run_queries (s : State) (hs : SOK true s)
-    (hp : s.idx.status = .fresh ∨ s.idx.pendingAdditionsPos = 0)
+    (hp : s.idx.status = .fresh ∨ s.idx.pendingAdditionsPos = 0) (hn : NoRem s.idx)
     (qs : List Op) (hq : ∀ op ∈ qs, op = .build ∨ op = .query) :
     runV Fixes.none s qs = runV Fixes.all s qs := by
   induction qs generalizing s with
   | nil => rfl
   | cons op t ih =>
     have hop := hq op (by simp)
-    have hquiet : Quiet s op := by rcases hop with h | h <;> subst h <;> exact hp
+    have hquiet : Quiet s op := by rcases hop with h | h <;> subst h <;> exact ⟨hp, hn⟩
     have hstep := step_agree_of_quiet s op hquiet
     have hs' := (step_fixed s op hs).1
-    have hfresh : (stepV Fixes.all s op).1.idx.status = .fresh := by
-      obtain ⟨i, hi⟩ := mau_fixed_isSome (f := Fixes.all) rfl s.idx
-      have := (mau_some hs.idx hi).2.2.2.1
-      rcases hop with h | h <;> subst h <;> simp [stepV, hs.alive, hi, this]
-    have := ih _ hs' (Or.inl hfresh) (fun o ho => hq o (by simp [ho]))
+    obtain ⟨i, hi⟩ := mau_fixed_isSome (f := Fixes.all) rfl s.idx
+    have hm := mau_some hs.idx hi
+    have hd53 : (!Fixes.all.d53 && i.numPresent == 1 && i.gone.contains 0) = false := by simp [Fixes.all]
+    have hidx : (stepV Fixes.all s op).1.idx = i := by
+      rcases hop with h | h <;> subst h <;> simp only [stepV, hs.alive, hi, hd53, Bool.false_eq_true, if_false]
+    have hfresh : (stepV Fixes.all s op).1.idx.status = .fresh := by rw [hidx]; exact hm.2.2.2.1
+    have hn' : NoRem (stepV Fixes.all s op).1.idx := by
+      rw [hidx]; exact ⟨by rw [mau_gone hi]; exact hn.1, hm.1.freshRem hm.2.2.2.1⟩
+    have := ih _ hs' (Or.inl hfresh) hn' (fun o ho => hq o (by simp [ho]))
     simp only [runV]
     rw [hstep, this]
 
@@ -170,9 +191,9 @@ theorem current_partial_single_build (n : Nat) (o : Bool) (k : PolyKind) (m : Na
       induction a generalizing s with
       | nil => simp [runV]
       | cons x t ih => simp [runV, ih]
-    obtain ⟨a1, a2⟩ := run_adds s0 hs0 (by rw [hinit]; rfl) shapes
+    obtain ⟨a1, a2, a3⟩ := run_adds s0 hs0 (by rw [hinit]; rfl) (by rw [hinit]; exact ⟨rfl, rfl⟩) shapes
     have hs1 := (run_fixed s0 hs0 (shapes.map .add)).2
-    have q1 := run_queries _ hs1 (Or.inr a2) qs hq
+    have q1 := run_queries _ hs1 (Or.inr a2) a3 qs hq
     rw [happ, happ, a1, q1]
   rw [key]
   exact ⟨(run_fixed s0 hs0 _).1, (run_fixed s0 hs0 _).2.alive⟩
@@ -190,10 +211,11 @@ theorem current_partial_first_update (x : Index) (h : x.status = .fresh ∨ x.pe
     fresh-object answer for the options it was handed — the defect D8 is only in WHICH options the
     public methods hand down, and D4 in whether the search returns. -/
 theorem current_partial_search_answer {idx idx' : Index} {q q' : EQ} {thr : Nat} {o : Opts} {rep : Report}
-    {a : EQAns} (hi : IdxOK idx) (hc : CovOK idx q)
+    {a : EQAns} (hi : IdxOK idx) (hc : CovOK idx q) (hn : NoRem idx)
     (h : findEdgesCore Fixes.none idx q thr o rep = some (idx', q', a)) :
     a = ansOf idx.shapes o rep ∧ IdxOK idx' ∧ idx'.shapes = idx.shapes :=
-  ⟨(fec_some hi hc h).ans, (fec_some hi hc h).ok, (fec_some hi hc h).shapes⟩
+  have hv : Vis Fixes.none idx := Or.inr hn
+  ⟨(fec_some hi hc h hv).ans, (fec_some hi hc h hv).ok, (fec_some hi hc h hv).shapes⟩
 
 /-- PARTIAL (current tree): FindEdges leaves the options alone (a query object used only for
     FindEdges keeps the caller's options) -/
@@ -257,13 +279,14 @@ theorem current_not_options_preserved : ¬ OptionsPreserved Fixes.none := by
     ⟨{ Opts.default with maxResults := 1 }, Opts.default, 64, 31, some [0]⟩
   revert this; decide
 
-/-- the D5 repair alone is not enough (the D4 history still hangs); the D4 repair (full rebuild on a
-    non-first update) happens to cure the D5 history as well, because a stale `pendingAdditionsPos`
-    then only forces a rebuild — but `Reset` still leaves the bookkeeping inconsistent -/
+/-- the D5 repair alone is not enough (the D4 history still hangs); neither is the D4 repair as coded in
+    a4a8224 (rebuild on a non-first update only when `pendingAdditionsPos < nextID` or a removal is queued):
+    after `Reset` the stale `pendingAdditionsPos = 1` equals `nextID` again after one `Add`, nothing counts as
+    pending and the index stays empty -/
 theorem single_repairs :
-    ¬ NeverStuck ⟨false, true, false, false, false, false⟩ ∧
-    outs ⟨true, false, false, false, false, false⟩ 8 .normal [.add L, .build, .reset, .add L, .query] =
-      [.id 0, .unit, .unit, .id 0, .seen [0]] := by
+    ¬ NeverStuck ⟨false, true, false, false, false, false, false, false⟩ ∧
+    outs ⟨true, false, false, false, false, false, false, false⟩ 8 .normal [.add L, .build, .reset, .add L, .query] =
+      [.id 0, .unit, .unit, .id 0, .seen []] := by
   constructor
   · intro h
     have := h 8 false .normal 8 [.add L, .build, .add L, .build]
